@@ -47,19 +47,26 @@ pub fn run(ctx: &mut Ctx) {
     let mut rng = Rng::new(ctx.seed ^ 0xC06);
     let mut sup = Supervisor::new(std::time::Duration::from_secs(20));
     let profile = if cfg!(debug_assertions) { "debug" } else { "release" };
-    let bases: Vec<(Mode, Comp, bool)> = if ctx.quick() {
-        vec![(Mode::OneFile, Comp::None, true), (Mode::TwoFiles, Comp::Zstd(3), false), (Mode::NoConcat, Comp::Lz4(2), false)]
+    // (packaging, compression, exhaustive small base, "big tables" base)
+    // The big-tables bases hold thousands of tiny contents so that the checked blocks of the content
+    // pack (content-info table, cluster tail) are larger than 4 KiB: the reader loads such blocks
+    // through another path (mmap) than small ones (heap copy).
+    let bases: Vec<(Mode, Comp, bool, bool)> = if ctx.quick() {
+        vec![(Mode::OneFile, Comp::None, true, false), (Mode::TwoFiles, Comp::Zstd(3), false, false), (Mode::NoConcat, Comp::Lz4(2), false, false), (Mode::OneFile, Comp::None, false, true)]
     } else {
         let mut v = vec![];
         for m in Mode::ALL {
             for c in [Comp::None, Comp::Zstd(3), Comp::Lz4(2), Comp::Lzma(1)] {
-                v.push((m, c, c == Comp::None && m == Mode::OneFile));
+                v.push((m, c, c == Comp::None && m == Mode::OneFile, false));
             }
         }
+        v.push((Mode::OneFile, Comp::None, false, true));
+        v.push((Mode::NoConcat, Comp::Zstd(3), false, true));
+        v.push((Mode::TwoFiles, Comp::None, false, true));
         v
     };
     let mut case = 0u64;
-    for (mode, comp, exhaustive) in bases {
+    for (mode, comp, exhaustive, big) in bases {
         let my = case;
         case += 1;
         if !ctx.wants(my) {
@@ -71,6 +78,15 @@ pub fn run(ctx: &mut Ctx) {
             for it in spec.items.iter_mut() {
                 it.data.truncate(30);
                 it.name.truncate(5);
+            }
+        } else if big {
+            let n = 2300 + crng.below(400) as usize;
+            spec.items.clear();
+            spec.extra_packs = 0;
+            for i in 0..n {
+                let len = (i * 7 + 3) % 11;
+                let hint = if comp != Comp::None && i % 3 == 0 { util::Hint::Yes } else { util::Hint::No };
+                spec.items.push(container::Item { name: format!("{:x}", i).into_bytes(), num: i as u64 * 37, data: crng.bytes(len), hint, pack: 1 });
             }
         } else if comp != Comp::None {
             // make sure compressed clusters exist and are bigger than one decode chunk
@@ -151,7 +167,7 @@ pub fn run(ctx: &mut Ctx) {
         let total = damages.len();
         for (di, d) in damages.iter().enumerate() {
             // model comparison on a sample (every one of them for errors would be thousands of dirs)
-            let for_model = d.family != "flip" || !exhaustive || di % 9 == 0;
+            let for_model = if big { di % 40 == 0 } else { d.family != "flip" || !exhaustive || di % 9 == 0 };
             let dir = if for_model && kept < keep_limit * 50 { kept += 1; root.join(format!("m{}", di)) } else { scratch.clone() };
             copy_dir(&orig, &dir);
             let target = dir.join(files[d.file].file_name().unwrap());
@@ -191,7 +207,7 @@ pub fn run(ctx: &mut Ctx) {
         }
         ctx.add("damaged_files_read", n);
         ctx.count(&format!("base:{}-{}", mode.name(), comp.name().split(':').next().unwrap()));
-        ctx.sample(format!("[{}] {} {} container ({} files, {} items{}): {} damaged variants read in a supervised worker", profile, mode.name(), comp.name(), files.len(), spec.items.len(), if exhaustive { ", exhaustive flips and truncations" } else { "" }, n));
+        ctx.sample(format!("[{}] {} {} container ({} files, {} items{}): {} damaged variants read in a supervised worker", profile, mode.name(), comp.name(), files.len(), spec.items.len(), if exhaustive { ", exhaustive flips and truncations" } else if big { ", checked blocks larger than 4 KiB" } else { "" }, n));
         ctx.case_done(fnv(format!("{:?}", spec).as_bytes()), n > 0);
     }
     ctx.add("worker_restarts", sup.restarts);
